@@ -121,6 +121,16 @@ def families(tier):
                  'x_pause_x': [('disp', 'B', 'X', 'ff'), ('pause',), ('disp', 'A', 'X', 'ff')]}[a_shape]
         main = [('disp', 'A', 'P', 'ff'), ('pause',), ('disp', 'A', 'P', 'ff')]
         add('c01.nested_concurrent', f'{a_shape}-c{c_bus}-g{g_bus}-{aw}', scn(buses, hs, main, [actor]), aw=aw)
+    # --- family 5: a dispatch that was rejected (backlog limit / full queue) is offered again later and then accepted ---------------
+    for K, hist, src in itertools.product((51, 60), (50, 5), ('main', 'handler')):
+        hs = [dict(bus='A', pat='X', name='hx', prog=[('ret', 1)], kind='sync'), dict(bus='A', pat='*', name='hw', prog=[('ret', 9)], kind='sync')]
+        if src == 'main':
+            main = [('burst', 'A', 'X', K), ('idle', 'A'), ('reoffer', 'A'), ('idle', 'A')]
+        else:
+            hs.append(dict(bus='A', pat='P', name='hp', prog=[('burst', 'A', 'X', K), ('pause',)]))
+            main = [('disp', 'A', 'P', 'ff'), ('pause',), ('idle', 'A'), ('reoffer', 'A'), ('idle', 'A')]
+        out.append(dict(prop='C01', family='c01.retry_after_reject', id=f'c01.retry_after_reject/K{K}-h{hist}-{src}', params=dict(K=K), cfg=dict(bound=1, cap=60, window=0.25, max_targets=1, busy=False),
+                        scn=dict(buses={'A': dict(hist=hist)}, handlers=hs, main=main, actors=[], forwards=[], order=['A'], settle=3.0, no_watch=True)))
     return out
 
 
